@@ -210,5 +210,3 @@ package j5reflect
 
 // a reflector always has its schema cache (New, NewWithCache with a cache from NewSchemaCache)
 //@ type *Reflector invariant r: r != nil && r.schemaSet != nil && r.schemaSet.packages != nil
-//@ func (*Reflector).NewRoot
-//@   requires allPkgsOK()
